@@ -28,7 +28,7 @@ CONSTANTS
   Variant   \* "code" | "outside" (body executed outside the lock)
 
 Threads == 1..NT
-ArgsUsed == {Prog[t][i].a : t \in Threads, i \in 1..3} \ {0}
+ArgsUsed == (UNION {{Prog[t][i].a : i \in 1..Len(Prog[t])} : t \in Threads}) \ {0}
 
 VARIABLES
   lock,     \* [o |-> owner or 0, n |-> count]
